@@ -211,6 +211,26 @@ def nan_defaults_unequal(rep: Report, prog: Program) -> None:
                    'False (or undecided) when both defaults are NaN' if val is not True else
                    'True when both defaults are NaN: equal() then reports two tensors equal whose dense forms contain NaN, for which torch.equal is False')
     rep.ob(rule, f.fq(), 'defaults compared with == (NaN is unequal to itself, as in torch.equal)', f.loc(), True, f"{n} disjunction(s) over the defaults examined")
+    # the defaults decide only in the final expression, after the overlap of the two patterns has been added to the count of
+    # positions accounted for: an earlier `return False` whose test mentions a default judges coverage per operand, although a
+    # position that is a default on one side may be stored on the other
+    from ..util import parents as _parents
+    for fn_name in ('equal', 'allclose'):
+        g = prog.func('fggs.indices', f"PatternedTensor.{fn_name}")
+        pm = _parents(g)
+        n_early = 0
+        for r in [x for x in own_nodes(g.node) if isinstance(x, ast.Return) and isinstance(x.value, ast.Constant) and x.value.value is False]:
+            p_ = pm.get(id(r))
+            while p_ is not None and not isinstance(p_, ast.If):
+                p_ = pm.get(id(p_))
+            if p_ is None:
+                continue
+            n_early += 1
+            uses_default = any(isinstance(x, ast.Attribute) and x.attr == 'default' for x in ast.walk(p_.test))
+            rep.ob('C13-D2 early-false', g.fq(), f"if {norm(p_.test)[:70]}: return False", g.loc(r), not uses_default,
+                   'decided by sizes or by a comparison of stored elements' if not uses_default else
+                   'an early False decided from the defaults: whether differing defaults matter depends on whether some position is stored on neither side, which is known only after the overlap has been counted')
+        rep.analysed[f"early_false_{fn_name}"] = n_early
 
 
 def branch_of(cfg, n: int) -> str:
